@@ -66,6 +66,14 @@ def run_shard(pid, tier, seed, shard, nshards, budget_s, out):
     faulthandler.dump_traceback_later(budget_s * 3 + 120, exit=True)
     ctx = Ctx(pid, tier, seed, shard, nshards, budget_s)
     ctx.shard_env = kind
+    from . import vclock
+
+    if shard % 2 == 0:
+        # every other shard: wall-clock readings inside the library jump (see vclock.py); nothing to replace on the pinned tree
+        ctx.vclock_bindings = vclock.install(seed * 1000 + shard)
+        if ctx.vclock_bindings:
+            ctx.count("virtual_clock_bindings_replaced", len(ctx.vclock_bindings))
+            ctx.note("virtual clock installed on: " + ", ".join(ctx.vclock_bindings))
     if kind:
         ctx.count("shards_run_under_" + kind + ("" if kind != "python-O" or sys.flags.optimize else "-FLAG-MISSING"))
     try:
@@ -85,6 +93,9 @@ def run_shard(pid, tier, seed, shard, nshards, budget_s, out):
         ctx.violation("harness-cannot-interpret-output:" + type(exc).__name__,
                       {"case": dict(ctx.replay_info or {}), "traceback": "".join(traceback.format_exception(exc))[-1800:]})
     faulthandler.cancel_dump_traceback_later()
+    if vclock.installed():
+        ctx.count("virtual_clock_readings", vclock.CLOCK.readings)
+        ctx.count("virtual_clock_big_jumps", vclock.CLOCK.big_jumps)
     ctx.dump(out)
     if getattr(ctx, "force_exit", False):
         sys.stdout.flush()
